@@ -56,3 +56,8 @@ V('C10', 'propagation-stops-at-children', 'edb/schema/referencing.py',
   'for descendant in scls.ordered_descendants(schema):',
   'for descendant in scls.children(schema):', 'C10.R4',
   'tagged-propagation-reaches-all-descendants')
+
+# round 5: the stored seeded breaks this property's check reports, replayed as variants
+from sa.selftest import VP  # noqa
+VP('C10', 'C10-e1', 'C10.R5', 'other-parent')
+VP('C10', 'C10-e2', 'C10.R6', 'index-fresh')
